@@ -43,14 +43,13 @@ def make_threadsafe(ctx: Ctx) -> None:
 def design_runs(ctx: Ctx) -> None:
     """(cfg, invariant expected to be violated or None)"""
     runs = [("TestCase.cfg" if ctx.quick else "TestCase_thorough.cfg", None),
-            ("TestCase_guards.cfg" if ctx.quick else "TestCase_guards_thorough.cfg", None),
             ("TestCase_asis_lenbound.cfg", "LenBound")]
     if not ctx.quick:
-        runs += [("TestCase_room.cfg", None), ("TestCase_raw.cfg", "AllWF")]
+        runs += [("TestCase_guards.cfg", None), ("TestCase_room.cfg", None), ("TestCase_raw.cfg", "AllWF")]
 
     def one(run):
         cfg, _ = run
-        return tlc.run_tlc("TestCase", cfg, workdir=ctx.work / f"d-{cfg}", workers=4, timeout=3000)
+        return tlc.run_tlc("TestCase", cfg, workdir=ctx.work / f"d-{cfg}", workers=3, timeout=3000)
 
     with ThreadPoolExecutor(max_workers=3) as ex:
         results = list(ex.map(one, runs))
@@ -80,17 +79,26 @@ def _plain(x):
 
 
 def api_behaviours(ctx: Ctx) -> list[dict]:
-    behs = ctx.behaviours("MC_TestCase", "MC_TestCase.cfg" if ctx.quick else "MC_TestCase_thorough.cfg")
-    ctx.notes["api_behaviours_exhaustive_depth1"] = len(behs)
-    plan = [("MC_TestCase_simraw.cfg", 120, 9)] if ctx.quick else \
+    """Exhaustive depth-1 behaviours and simulated longer ones (two TLC runs side by side)."""
+    plan = [("MC_TestCase_simq.cfg", 80, 8)] if ctx.quick else \
         [("MC_TestCase_sim.cfg", 1500, 13), ("MC_TestCase_simraw.cfg", 1500, 9)]
-    sims = []
-    for cfg, num, depth in plan:
-        for st in ctx.simulate("MC_TestCase", cfg, num=num, depth=depth):
-            st = _plain(st)
-            if st.get("hist"):
-                sims.append({"init": [{"st": o["st"], "ctr": o["ctr"]} for o in st["init"]],
-                             "hist": st["hist"]})
+
+    def simulated() -> list[dict]:
+        sims = []
+        for cfg, num, depth in plan:
+            for st in ctx.simulate("MC_TestCase", cfg, num=num, depth=depth):
+                st = _plain(st)
+                if st.get("hist"):
+                    sims.append({"init": [{"st": o["st"], "ctr": o["ctr"]} for o in st["init"]],
+                                 "hist": st["hist"]})
+        return sims
+
+    with ThreadPoolExecutor(max_workers=1) as ex:
+        fut = ex.submit(simulated)
+        behs = ctx.behaviours("MC_TestCase", "MC_TestCase.cfg" if ctx.quick else "MC_TestCase_thorough.cfg",
+                              workers=3)
+        sims = fut.result()
+    ctx.notes["api_behaviours_exhaustive_depth1"] = len(behs)
     ctx.notes["api_behaviours_simulated"] = len(sims)
     return behs + sims
 
@@ -146,7 +154,12 @@ def history_specs(ctx: Ctx) -> list[dict]:
 
 
 def lenbound_signature(ev: dict, clause: str) -> str:
-    how = "from-below-max/call-plus-dependencies-overshoot" if ev["pre_n"] < ev["L"] else "at-or-above-max/grows"
+    if ev["pre_n"] >= ev["L"]:
+        how = "at-or-above-max/grows"
+    elif ev["site"] == "crossover":
+        how = "from-below-max/offspring-over-max"
+    else:
+        how = "from-below-max/call-plus-dependencies-overshoot"
     return f"C15/{clause}/{ev['op']}/{how}"
 
 
